@@ -3,12 +3,27 @@
 From Coq Require Import ZArith String List Ascii Bool Permutation Sorting.Sorted.
 Import ListNotations.
 From FV.C04 Require Import Text Model Proofs Corr.
-From FV.C02 Require Import Model Proofs ProofsSeries Regex Corr.
+From FV.C02 Require Import Model Proofs ProofsSeries Regex Clusters Corr.
 From FV.C02.gen Require Import ResCfg.
 
 (* the header skip constants the model uses are the ones of the tree under test *)
 Theorem C02_header_skip : skip_old = 3 /\ skip_new = 11.
 Proof. split; reflexivity. Qed.
+
+(* _split_series as femio writes it -- indices_matches, np.diff, separation
+   indices, ind_clusters[1][0], with the header skip constants of the tree under
+   test -- is, on EVERY list of lines, the span formulation Model.split_series
+   that the theorems below are stated about *)
+Theorem C02_split_series_as_written :
+  forall lines, split_series_idx skip_old skip_new lines = split_series lines.
+Proof. exact split_series_idx_spans. Qed.
+Example C02_split_series_as_written_example :
+  let body := map S ["3 1"; "DISP"; "E1"; "7"; "1.0E+00 2.0E+00 3.0E+00"; "4.0E+00"; "1"; "2"; "S1"; "30"; "5.0E+00"] in
+  idx_from is_name_line 0 body = [1; 2; 8]
+  /\ clusters [1; 2; 8] = [[1; 2]; [8]]
+  /\ split_body_idx body = Ok (firstn 6 body, Some (skipn 6 body))
+  /\ clusters [0; 1; 2; 5; 6; 9] = [[0; 1; 2]; [5; 6]; [9]].
+Proof. vm_compute. repeat split; reflexivity. Qed.
 
 (* per-run tie of the file layer (shared with C04): StringSeries.read_file /
    read_files read the file on every call (no cache between a rewrite and the
@@ -237,6 +252,7 @@ Proof.
 Qed.
 
 Print Assumptions C02_res_roundtrip.
+Print Assumptions C02_split_series_as_written.
 Print Assumptions C02_series_any_file_order.
 Print Assumptions C02_elemental_ids_row_order_free.
 Print Assumptions C02_steps_sorted_stack.
